@@ -422,6 +422,16 @@ func runC03parse(cfg Config, r *Result) {
 		i, j := rng.Intn(len(a)+1), rng.Intn(len(b)+1)
 		run(mutCase{strings.Join(a[:i], "") + strings.Join(b[j:], ""), "splice"})
 	}
+	// binder programs (harness/c03binders.go) and their line prefixes: the order and the positions of the scope errors
+	// (unused / redeclared parameters, variadic parameters, loop variables, locals) against the model
+	for k := 0; k < cfg.N(200, 4000); k++ {
+		src := genBinderProgram(rng)
+		run(mutCase{src, "binders"})
+		lines := strings.SplitAfter(src, "\n")
+		for j := 0; j < 2 && len(lines) > 1; j++ {
+			run(mutCase{strings.Join(lines[:1+rng.Intn(len(lines)-1)], ""), "binders:prefix-line"})
+		}
+	}
 	// type-breaking mutations: literals replaced by literals of another type, operands wrapped in
 	// unary operators / index / field access, so that the type checker objects in the middle of
 	// otherwise well-formed programs (exercises the nil-propagation paths against the model)
